@@ -296,8 +296,18 @@ func c19collectorBody(depth int) func() {
 			}
 			return fmt.Sprintf("key%d", i)
 		}
+		depth := depth
+		if depth < 0 {
+			// quick tier: full depth for short names, one step less for the other name shapes
+			depth = -depth
+			if shape != 0 {
+				depth--
+			}
+		}
 		accessed := map[string]bool{}
 		var hist []string
+		var held []HotKey
+		var heldNames []string
 		for step := 0; step < depth; step++ {
 			op := sched.Choose(sched.ClsInput, 9, "op")
 			switch {
@@ -321,7 +331,28 @@ func c19collectorBody(depth int) func() {
 				clock++
 				hist = append(hist, "minute+1")
 			}
+			// a report handed to a HOTKEY reader earlier is still being walked by it while the collector goes on:
+			// whatever position j the reader had reached before the last operation, the entries it had already
+			// seen (as they were) followed by the entries it reads now must not list a key twice
+			if held != nil {
+				for j := 0; j <= len(held); j++ {
+					seen := map[string]bool{}
+					for _, n := range heldNames[:j] {
+						seen[n] = true
+					}
+					for _, k := range held[j:] {
+						if seen[k.Name] {
+							sched.Fail("report-walked-by-a-reader-lists-key-twice", fmt.Sprintf("%v: a reader that had read %d entries %q of the report before the last operation reads %s from there on", hist, j, heldNames[:j], heats(held[j:])))
+						}
+						seen[k.Name] = true
+					}
+				}
+			}
 			hk := col.HotKeys()
+			held, heldNames = hk, nil
+			for _, k := range hk {
+				heldNames = append(heldNames, k.Name)
+			}
 			if len(hk) > int(capn) {
 				sched.Fail("report-longer-than-capacity", fmt.Sprintf("%v: %d keys, capacity %d", hist, len(hk), capn))
 			}
@@ -495,7 +526,7 @@ func init() {
 	}})
 	sched.Register(&sched.Scenario{Name: "C19/insert", Custom: c19insert, ReplayCustom: func(in json.RawMessage) []sched.Failure { return nil }})
 	sched.Register(&sched.Scenario{Name: "C19/collector", Setup: func(tier string) (sched.Config, func()) {
-		d := 4
+		d := -5 // depth 5 for short key names, 4 for the other name shapes
 		b := sched.Bounds{Env: 1, F: -1}
 		if tier == "thorough" {
 			d = 5
